@@ -198,6 +198,7 @@ type Options struct {
 	SchedOnly  bool                                 // bounded mode: deviations only at scheduling points
 	DataOnly   bool                                 // bounded mode: deviations only at environment choice points
 	Debug      bool                                 // dpor mode: print every execution's transition sequence and the backtrack sets
+	Spread     bool                                 // bounded mode: visit the sequences of a level in binary-subdivision order of their position (middle, quarters, eighths ...) instead of front to back: a cap then leaves a coarse cover of the whole execution rather than its beginning only; without a cap the visited set is the same
 	Allow      func(enabled []string, alt int) bool // bounded mode: restricts the deviations at scheduling points (nil = all)
 	FullRace   bool                                 // dpor mode: textbook race detection (every pending operation against the whole history at every state)
 }
@@ -269,6 +270,9 @@ func Bounded(body func() string, opt Options) *Stats {
 			}
 		}
 		st.BoundCompleted = d
+		if opt.Spread {
+			next = spread(next)
+		}
 		level = next
 		if len(level) == 0 {
 			st.Exhaustive = true // no choice sequence with more deviations exists: the whole space was explored
@@ -278,6 +282,36 @@ func Bounded(body func() string, opt Options) *Stats {
 	st.Wall = time.Since(t0).Seconds()
 	return st
 }
+
+// spread reorders a list into binary-subdivision order: index n/2, n/4, 3n/4, n/8, ... (every element once).
+func spread[T any](in []T) []T {
+	n := len(in)
+	if n < 3 {
+		return in
+	}
+	out := make([]T, 0, n)
+	seen := make([]bool, n)
+	for step := n; step >= 1; step = (step + 1) / 2 {
+		for pos := step / 2; pos < n; pos += step {
+			if !seen[pos] {
+				seen[pos] = true
+				out = append(out, in[pos])
+			}
+		}
+		if step == 1 {
+			break
+		}
+	}
+	for i := range in {
+		if !seen[i] {
+			out = append(out, in[i])
+		}
+	}
+	return out
+}
+
+// Spread is spread for other packages.
+func Spread[T any](in []T) []T { return spread(in) }
 
 // ---------- DPOR ----------
 
